@@ -6,7 +6,8 @@ NOTE = {
            "parse of the specification's document, and each part's accept set judged by TLC on Encode/WrapperDecode events",
     "C02": "every well-formed document of every part delivered through the generated entry point functions and the multitest "
            "Contract impl; Handler/Return events (which handler, arguments by name, context, outcome, storage) judged by TLC; "
-           "liveness of the machine (`Answered`: every delivered document is answered) checked under fairness on a small instance",
+           "liveness of the machine (`Answered`: every delivered document is answered) checked under fairness on a small instance; "
+           "dispatch of bridged interface handlers on contracts with chain-custom types: response untouched, caller's context (bridge corpus of C11)",
     "C03": "every well-formed document of every part plus malformed derivatives (unknown/near-miss names, {}, two keys, duplicate key, "
            "non-objects, missing/ill-typed/extra members, non-object body) decoded by the contract-level message and by each part; "
            "relation judged by TLC on WrapperDecode events",
@@ -20,4 +21,12 @@ def run(prop, tier, seed, replay):
         # liveness of the routing machine (design level): every delivered document is answered -- FairSpec, no constraint
         from ..common import tlc_model
         tlc_model("MC_Routing", "MC_Routing_live.cfg", workers=8, timeout=1200, coverage=False)
-    return routing.run_property(prop, tier, seed, NOTE[prop])
+    extra = None
+    if prop == "C02":
+        # dispatch on a contract with chain-custom types (bridged interface handlers): the response and the context, judged as C02
+        from . import c11
+
+        def extra(rep):
+            cov = c11.bridge(prop, tier, seed, rep)
+            return {"bridged_dispatches_judged": cov["traces_validated_against_impl"]}
+    return routing.run_property(prop, tier, seed, NOTE[prop], extra=extra)
